@@ -1,5 +1,5 @@
 import Deltio.Lemmas.SubsOk
-import Deltio.Props.C04
+import Deltio.Lemmas.Expire
 /-
   The blocking-pull loop and the timer loop of the system model: expiry facts, `nextTimer`
   minimality, the loop's frame property, fuel sufficiency, and the empty-response lemma.
@@ -49,7 +49,7 @@ theorem expire_hits {s : SubState} (h : SubInv s) (d now : Nat) (hn : s.out.next
     have hdl : dv.deadline ≤ now := by
       have : dv.deadline = k.1 := by rw [← hk]; rfl
       omega
-    have := (C04_at_deadline h dv hdv now hdl).1
+    have := (at_deadline h dv hdv now hdl).1
     intro hc
     rw [hc] at this
     simp at this
@@ -517,6 +517,17 @@ theorem empty_tracker_no_timer {t : Tracker} (h : t.Inv) (hm : t.msgs = []) : t.
     obtain ⟨d, hd, _⟩ := (h.agree k).mp (by rw [hx]; simp)
     rw [hm] at hd; simp at hd
 
+theorem SidsUnique_of_SysInv {sys : Sys} (h : SysInv sys) : SidsUnique sys := by
+  have := h.sids
+  unfold Sys.ssh at this
+  simp only [List.map_map] at this
+  unfold SidsUnique
+  have h2 : sys.subs.map (·.sid) = List.map ((fun (e : SSh) => e.sid) ∘ fun e => ⟨e.sid, e.name, e.topicId, e.push⟩) sys.subs := by
+    apply List.map_congr_left; intro x _; rfl
+  rw [h2]
+  exact this.imp (fun h => Nat.ne_of_lt h)
+
+
 /-- With no StreamingPull open, every firing of the timer loop takes at least one delivery out of
     some tracker, so a fuel of at least the number of outstanding deliveries lets it run to completion. -/
 theorem advanceTo_settled (frac : Nat) : ∀ (fuel target : Nat) (sys : Sys), sys.streams = [] → SubsOk sys → SidsUnique sys →
@@ -587,5 +598,51 @@ theorem advanceTo_settled (frac : Nat) : ∀ (fuel target : Nat) (sys : Sys), sy
       have : ({ sys with clock := max sys.clock target } : Sys).nextTimer = sys.nextTimer := rfl
       rw [this, hnt] at hnt'
       cases hnt'
+
+theorem ceilMs_mono {a b : Nat} (h : a ≤ b) : ceilMs a ≤ ceilMs b := by
+  unfold ceilMs
+  have : (a + 999) / 1000 ≤ (b + 999) / 1000 := Nat.div_le_div_right (by omega)
+  exact Nat.mul_le_mul_right 1000 this
+
+/-- The head of the expiration set is the earliest deadline. -/
+theorem nextExp_le {t : Tracker} (h : t.Inv) {dv : Deliv} (hd : dv ∈ t.msgs) :
+    ∃ d0, t.nextExpiration = some d0 ∧ d0 ≤ dv.deadline := by
+  have hk : dv.key ∈ t.exps := (h.agree dv.key).mpr ⟨dv, hd, rfl⟩
+  unfold Tracker.nextExpiration
+  cases hx : t.exps with
+  | nil => rw [hx] at hk; cases hk
+  | cons k rest =>
+    refine ⟨k.1, by simp, ?_⟩
+    rw [hx] at hk
+    simp only [List.mem_cons] at hk
+    rcases hk with h1 | h1
+    · rw [← h1]; exact Nat.le_refl _
+    · have hs := h.sorted
+      rw [hx] at hs
+      have := (List.pairwise_cons.mp hs).1 dv.key h1
+      unfold keyLt at this
+      simp only [Bool.or_eq_true, decide_eq_true_eq, Bool.and_eq_true, beq_iff_eq] at this
+      have hdk : dv.key.1 = dv.deadline := rfl
+      rcases this with h2 | h2
+      · omega
+      · omega
+
+/-- Once the timer loop has run to completion, no outstanding delivery is overdue by a whole
+    timer tick: every remaining deadline's tick lies after the target. -/
+theorem settled_not_late {sys : Sys} (hok : SubsOk sys) (frac target : Nat) (hset : Sys.settled frac target sys) :
+    ∀ e ∈ sys.subs, ∀ dv ∈ e.st.out.msgs, target < ceilMs dv.deadline + frac := by
+  intro e he dv hdv
+  obtain ⟨d0, hn, hle⟩ := nextExp_le (hok e he).1.out hdv
+  cases hnt : sys.nextTimer with
+  | none =>
+    have := nextTimer_none hnt e he
+    rw [hn] at this; cases this
+  | some tx =>
+    obtain ⟨t, x⟩ := tx
+    have h1 := hset t x hnt
+    have h2 := nextTimer_min hnt e he d0 hn
+    have h3 := ceilMs_mono hle
+    omega
+
 
 end Deltio
